@@ -53,15 +53,15 @@ SeqAnswer(k) == IF ReachesCycle(k, {}) THEN "err" ELSE "ok"
 
 ChainIds == Threads \cup {0}
 ChainOf(t) == IF "shared_chain" \in Dev /\ SharedResolver THEN 0 ELSE t
-NewFrame(k) == [key |-> k, pc |-> "guard", i |-> 0, res |-> "none"]
+NewFrame(k) == [key |-> k, pc |-> "guard", i |-> 0, res |-> "none", rc |-> FALSE]   \* rc: recomputing after a cached error
 Top(t) == stack[t][Len(stack[t])]
 SetTop(t, f) == [stack EXCEPT ![t] = [@ EXCEPT ![Len(@)] = f]]
-AfterCompute == IF CacheOn THEN "publish" ELSE "exit"
+AfterCompute(f) == IF CacheOn /\ ~f.rc THEN "publish" ELSE "exit"
 InSeq(x, s) == \E j \in 1..Len(s) : s[j] = x
 
 \* thread that marked key k in the cache and has not published yet (0 if none)
-Owner(k) == IF \E u \in Threads : \E j \in 1..Len(stack[u]) : stack[u][j].key = k /\ stack[u][j].pc \in {"compute", "publish"}
-            THEN CHOOSE u \in Threads : \E j \in 1..Len(stack[u]) : stack[u][j].key = k /\ stack[u][j].pc \in {"compute", "publish"}
+Owner(k) == IF \E u \in Threads : \E j \in 1..Len(stack[u]) : stack[u][j].key = k /\ stack[u][j].pc \in {"compute", "publish"} /\ ~stack[u][j].rc
+            THEN CHOOSE u \in Threads : \E j \in 1..Len(stack[u]) : stack[u][j].key = k /\ stack[u][j].pc \in {"compute", "publish"} /\ ~stack[u][j].rc
             ELSE 0
 
 RECURSIVE WaitReaches(_, _, _)
@@ -79,9 +79,9 @@ ReturnStack(t, st, r) ==
   IF n = 1
   THEN IF nxt[t] < Len(Loads[t]) THEN <<NewFrame(Loads[t][nxt[t] + 1])>> ELSE <<>>
   ELSE LET p  == st[n - 1]
-           p2 == IF r = "err" THEN [p EXCEPT !.res = "err", !.pc = AfterCompute]
+           p2 == IF r = "err" THEN [p EXCEPT !.res = "err", !.pc = AfterCompute(p)]
                  ELSE IF p.i < Len(Deps[p.key]) THEN [p EXCEPT !.i = p.i + 1]
-                 ELSE [p EXCEPT !.res = "ok", !.pc = AfterCompute]
+                 ELSE [p EXCEPT !.res = "ok", !.pc = AfterCompute(p)]
            base == SubSeq(st, 1, n - 2) \o <<p2>>
        IN IF r # "err" /\ p.i < Len(Deps[p.key]) THEN Append(base, NewFrame(Deps[p.key][p.i + 1])) ELSE base
 
@@ -96,7 +96,16 @@ Return(t, r) ==
 StartCompute(t) ==
   LET f == Top(t) IN
   IF Deps[f.key] = <<>>
-  THEN stack' = SetTop(t, [f EXCEPT !.res = "ok", !.pc = AfterCompute])
+  THEN stack' = SetTop(t, [f EXCEPT !.res = "ok", !.pc = AfterCompute(f)])
+  ELSE stack' = [stack EXCEPT ![t] = Append([@ EXCEPT ![Len(@)] = [f EXCEPT !.pc = "compute", !.i = 1]],
+                                            NewFrame(Deps[f.key][1]))]
+
+\* a cached error that this call did not compute is not trusted (it may stem from another type):
+\* the load is repeated without the cache, still inside this call's guard
+Recompute(t) ==
+  LET f == [Top(t) EXCEPT !.rc = TRUE] IN
+  IF Deps[f.key] = <<>>
+  THEN stack' = SetTop(t, [f EXCEPT !.res = "ok", !.pc = "exit"])
   ELSE stack' = [stack EXCEPT ![t] = Append([@ EXCEPT ![Len(@)] = [f EXCEPT !.pc = "compute", !.i = 1]],
                                             NewFrame(Deps[f.key][1]))]
 
@@ -124,8 +133,11 @@ CacheEnter(t) ==
                  /\ cache' = [cache EXCEPT ![k] = "inproc"]
                  /\ StartCompute(t)
                  /\ UNCHANGED <<nxt, chain, results, panicked>>
-            [] cache[k] \in {"ok", "err"} ->
-                 /\ stack' = SetTop(t, [Top(t) EXCEPT !.res = cache[k], !.pc = "exit"])
+            [] cache[k] = "ok" ->
+                 /\ stack' = SetTop(t, [Top(t) EXCEPT !.res = "ok", !.pc = "exit"])
+                 /\ UNCHANGED <<nxt, chain, cache, results, panicked>>
+            [] cache[k] = "err" ->
+                 /\ Recompute(t)
                  /\ UNCHANGED <<nxt, chain, cache, results, panicked>>
             [] cache[k] = "inproc" ->
                  /\ IF "cache_wait_unbounded" \notin Dev /\ WaitReaches(Owner(k), t, Cardinality(Threads) + 1)
@@ -138,7 +150,9 @@ CacheEnter(t) ==
 Wake(t) ==
   /\ Top(t).pc = "blocked"
   /\ cache[Top(t).key] \in {"ok", "err"}
-  /\ stack' = SetTop(t, [Top(t) EXCEPT !.res = cache[Top(t).key], !.pc = "exit"])
+  /\ IF cache[Top(t).key] = "ok"
+     THEN stack' = SetTop(t, [Top(t) EXCEPT !.res = "ok", !.pc = "exit"])
+     ELSE Recompute(t)
   /\ UNCHANGED <<nxt, chain, cache, results, panicked>>
 
 \* store the computed value, notify_all
